@@ -55,6 +55,17 @@ VK_MAIN()
         struct msa *m = NULL;
         int rc = run_reader(&inb, &m);
         VK_ASSERT(rc == OK || rc == FAIL, "C05: the reader returns OK or FAIL");
+#if VK_RD == 1
+        if (rc == FAIL) {
+                /* the only documented reason to reject FASTA text: residues / gap characters before the first header */
+                int nrec = 0, bad = 0;
+                for (int i = 0; i < VK_LINES; i++) {
+                        if (store[i][0] == '>') { nrec++; continue; }
+                        for (int k = 0; k < VK_LL; k++) if (k < LLEN(i)) { unsigned char c = (unsigned char)store[i][k]; if (!nrec && c < 128 && (isalpha(c) || ispunct(c))) bad = 1; }
+                }
+                VK_ASSERT(bad, "C05: well-formed FASTA text is accepted");
+        }
+#endif
         if (rc == OK) {
                 VK_ASSERT(m != NULL && m->numseq >= 0 && m->numseq <= m->alloc_numseq, "C05: sequence count within the allocation");
                 long total = 0;
@@ -66,6 +77,37 @@ VK_MAIN()
                         for (int k = 0; k <= VK_SEQ_CAP; k++) if (k <= q->len) VK_ASSERT(q->gaps[k] >= 0, "C05: gap counts are non-negative");
                         total += q->len;
                 }
+#if VK_RD == 1
+                /* C04-O1 normal form (FASTA), written from the documented behaviour, not from the reader: a line starting with
+                 * '>' opens a record named by the rest of the line; on every other line letters are the residues (in order),
+                 * punctuation is counted as gaps in front of the next residue, everything else (blanks, digits) is ignored;
+                 * the histogram counts every 7-bit byte of the non-header lines.  Wrapping / blank lines / padding therefore
+                 * cannot matter. */
+                {
+                        int nrec = 0, elen[VK_LINES + 1], egap[VK_LINES + 1][VK_SEQ_CAP + 1]; unsigned char eseq[VK_LINES + 1][VK_SEQ_CAP]; int hist[128];
+                        for (int c = 0; c < 128; c++) hist[c] = 0;
+                        for (int r = 0; r <= VK_LINES; r++) { elen[r] = 0; for (int k = 0; k <= VK_SEQ_CAP; k++) egap[r][k] = 0; }
+                        int bad = 0;
+                        for (int i = 0; i < VK_LINES; i++) {
+                                if (store[i][0] == '>') { nrec++; continue; }
+                                for (int k = 0; k < VK_LL; k++) if (k < LLEN(i)) {
+                                        unsigned char c = (unsigned char)store[i][k];
+                                        if (c < 128) hist[c]++;
+                                        if (c < 128 && isalpha(c)) { if (!nrec) bad = 1; else { eseq[nrec - 1][elen[nrec - 1]] = c; elen[nrec - 1]++; } }
+                                        else if (c < 128 && ispunct(c)) { if (!nrec) bad = 1; else egap[nrec - 1][elen[nrec - 1]]++; }
+                                }
+                        }
+                        VK_ASSERT(!bad, "C05: residues or gaps before the first record header are rejected");
+                        VK_ASSERT(m->numseq == nrec, "C04: one record per header line");
+                        for (int c = 0; c < 128; c++) VK_ASSERT(m->letter_freq[c] == hist[c], "C13/C04: the histogram counts exactly the characters of the sequence lines");
+                        for (int r = 0; r < VK_LINES; r++) if (r < nrec && r < m->numseq) {
+                                struct msa_seq *q = m->sequences[r];
+                                VK_ASSERT(q->len == elen[r], "C04: residues = the letters of the record's lines");
+                                for (int k = 0; k < VK_SEQ_CAP; k++) if (k < elen[r] && k < q->len) VK_ASSERT((unsigned char)q->seq[k] == eseq[r][k], "C04: residues in order, same case");
+                                for (int k = 0; k <= VK_SEQ_CAP; k++) if (k <= elen[r] && k <= q->len) VK_ASSERT(q->gaps[k] == egap[r][k], "C04: punctuation is counted as gaps at its position");
+                        }
+                }
+#endif
                 long letters = 0;
                 for (int c = 0; c < 128; c++) { VK_ASSERT(m->letter_freq[c] >= 0, "C05: histogram non-negative"); if (isalpha(c)) letters += m->letter_freq[c]; }
                 VK_ASSERT(letters >= total, "C13: every stored residue is counted in the letter histogram");
